@@ -126,10 +126,22 @@ def trusted_headers(part):
     return None
 
 
+def r_ares(v, f):
+    if v[0] == 0:
+        return f(v[1])
+    return ('raises', 'MultipartParseError') if v[0] == 1 else ('need',)
+
+
+def r_view(v):
+    """decoded model view [content_type; name; filename] -> the python values the attributes must have"""
+    opt = lambda o: common.wstr(o[0]) if o else None
+    return {'content_type': r_ares(v[0], common.wstr), 'name': r_ares(v[1], opt), 'filename': r_ares(v[2], opt)}
+
+
 def public_view(part):
     """public, header-derived attributes; an exception class is an observation"""
     out = {}
-    for attr in ('content_type', 'name', 'filename'):
+    for attr in ('content_type', 'name', 'filename', 'secure_filename'):
         try:
             out[attr] = getattr(part, attr)
         except Exception as e:  # noqa: BLE001
@@ -291,41 +303,54 @@ def ext_value(s):
     return "UTF-8''" + urllib.parse.quote(s, safe='')
 
 
-def gen_part(rng, b):
-    name = rng.choice(['a', 'field', 'file1', 'x y', 'n-1', '', 'Ünï', 'a;b'])
-    fname = rng.choice([None, None, 'f.txt', 'my file.bin', 'ünïcode.txt', ''])
-    ext = bool(fname) and rng.random() < 0.3
-    cd = 'form-data; name="%s"' % name
-    exp_filename = fname
-    if fname is not None:
-        if ext:
-            cd += "; filename*=%s" % ext_value(fname)
-        else:
-            cd += '; filename="%s"' % fname
+NAMES = ['a', 'field', 'file1', 'x y', 'n-1', '', 'Ünï', 'a;b', 'a=b; c', " it's ", '日本 語', 'tab\there', 'q?*', '\x85edge\xa0',
+         'semi;colon;', 'e\u0301', '\U0001f600']
+FNAMES = ['f.txt', 'my file.bin', 'ünïcode.txt', '', '.hidden', 'a;b=c.txt', '日本語.pdf', 'Bold Digit \U0001d7cf', 'x' * 40,
+          '..', 'sp ace ', 'Ångström unit.pdf', "o'neil.txt", '100%.txt', 'a%41b']
+
+
+def gen_field(rng, b):
+    """a form field in the domain of the reference encoder (SpecPart.wf_field): name / filename are
+    arbitrary Unicode strings without double quote, backslash, CR, LF"""
+    name = rng.choice(NAMES)
+    fn = None
+    if rng.random() < 0.6:
+        f = rng.choice(FNAMES)
+        fn = (bool(f) and rng.random() < 0.4, f)
     ctype = rng.choice(CTYPES)
     content = gen_content(rng, b)
     is_json = False
     if ctype == b'application/json':
         content = json.dumps(rng.choice([{'a': 1}, [1, 2, 'x'], 'str', 7, {'k': ['v', None]}])).encode()
         is_json = True
-    cdname = rng.choice([b'Content-Disposition', b'content-disposition', b'CONTENT-DISPOSITION'])
-    headers = [[cdname, cd.encode('utf-8')]]
-    if ctype is not None:
-        headers.append([rng.choice([b'Content-Type', b'content-type']), ctype])
+    return {'name': name, 'fn': fn, 'ctype0': ctype, 'content': content, 'json0': is_json}
+
+
+def w_field(f):
+    return [f['name'], [] if f['fn'] is None else [[f['fn'][0], f['fn'][1]]],
+            [] if f['ctype0'] is None else [f['ctype0']], f['content']]
+
+
+def decorate(rng, f, headers):
+    """variations the parser must see through (they do not change what the part presents, except a
+    duplicate Content-Type, where the last one wins): header-name case, ignored headers, order"""
+    headers = [[bytes(n), bytes(v)] for n, v in headers]
+    for h in headers:
+        h[0] = rng.choice([h[0], h[0].lower(), h[0].upper()])
+    ctype, is_json = f['ctype0'], f['json0']
     if rng.random() < 0.2:
         headers.insert(rng.randint(0, len(headers)), [b'X-Custom', b'ignored: value'])
     if rng.random() < 0.1:
         headers.append([b'Content-Transfer-Encoding', b'binary'])
     if rng.random() < 0.05:
         headers.append([b'Content-Type', b'text/plain'])   # duplicate: last wins
-        ctype, is_json = b'text/plain', False
     rng.shuffle(headers)
-    # duplicates after shuffling: recompute the effective content type
     eff = None
     for n, v in headers:
         if n.lower() == b'content-type':
             eff = v
-    return {'headers': headers, 'content': content, 'name': name, 'filename': exp_filename,
+    return {'headers': headers, 'content': f['content'], 'name': f['name'],
+            'filename': None if f['fn'] is None else f['fn'][1],
             'ctype': eff, 'json': is_json and eff == b'application/json'}
 
 
@@ -463,13 +488,29 @@ def judge(ctx, which, case, impl, model_run, oracle):
                           key='%s-roundtrip' % which)
         if not bad:
             for i, v in enumerate(views):
-                ev = expected_view(case['parts'][i])
-                if v != ev:
+                ev = dict(expected_view(case['parts'][i]), secure_filename=case['coq_secure'][i])
+                cv = dict(case['coq_views'][i], secure_filename=case['coq_secure'][i])
+                if v != ev or v != cv:
                     bad = True
                     ctx.violation('%s-bodypart-name-filename-content-type' % which,
-                                  dict(detail, part=i, impl=jsonable(v), encoded=jsonable(ev)),
+                                  dict(detail, part=i, impl=jsonable(v), encoded=jsonable(ev), coq_view=jsonable(cv),
+                                       what='BodyPart.content_type/.name/.filename/.secure_filename differ from the '
+                                            'encoded field (= view_of of the expected headers, C13_form_roundtrip)'),
                                   key='%s-view' % which)
                     break
+    elif not bad and case.get('model_views') is not None:
+        # corrupted body: the attributes must be what ModelPart computes from the header dictionary
+        for i, (v, mv) in enumerate(zip(views, case['model_views'])):
+            if mv is None:
+                continue
+            cmpv = {k: v[k] for k in ('content_type', 'name', 'filename')}
+            if any(x == ('need',) for x in mv.values()):
+                ctx.count('view-outside-model-domain')
+                continue
+            if cmpv != mv:
+                pending_corr.append((which + '-view', dict(detail, part=i, impl=jsonable(cmpv), model=jsonable(mv),
+                                                           broken='C13.%s_bodypart_attribute_corr' % which)))
+                break
     if not bad and model_run is not None:
         mparts, mstatus = model_run
         ist = status[:2] if status[0] == 'failed' else status[:1]
@@ -507,11 +548,18 @@ def build_valid_cases(ctx, model, n):
     for _ in range(n):
         b = gen_boundary(rng)
         nparts = rng.choice([0, 1, 1, 2, 2, 3, 4, 6])
-        parts = [gen_part(rng, b) for _ in range(nparts)]
+        fields = [gen_field(rng, b) for _ in range(nparts)]
         pre = rng.choice([b'', b'', b'preamble\r\n', b'--', b'--' + b[:-1] + b'\r\n', b'\r\n', b'x\r\n--x'])
         epi = rng.choice([b'', b'', b'epilogue', b'\r\n--' + b + b'\r\nContent-Disposition: form-data; name="ghost"\r\n\r\nboo\r\n--' + b + b'--\r\n'])
         fin = rng.random() < 0.7
-        raw.append({'boundary': b, 'parts': parts, 'pre': pre, 'epi': epi, 'fin': fin})
+        raw.append({'boundary': b, 'fields': fields, 'pre': pre, 'epi': epi, 'fin': fin})
+    # fields -> parts through the Coq encoder SpecPart.field_part (+ its domain check wf_field)
+    fp = model.run_many([[9, c['boundary'], [w_field(f) for f in c['fields']]] for c in raw])
+    for c, out in zip(raw, fp):
+        c['fields_wf'] = all(x[1] == 1 for x in out)
+        c['parts'] = [decorate(rng, f, x[0][0]) for f, x in zip(c['fields'], out)]
+    ctx.count('fields-not-wf', sum(1 for c in raw if not c['fields_wf']))
+    raw = [c for c in raw if c['fields_wf']]
     wf = model.run_many([[3, 100000, c['boundary'], c['pre'], w_parts(c['parts'])] for c in raw])
     keep = [c for c, ok in zip(raw, wf) if ok == 1]
     ctx.count('generated-not-wf', len(raw) - len(keep))
@@ -520,6 +568,26 @@ def build_valid_cases(ctx, model, n):
         c['body'] = bytes(body)
         c['content_type'] = content_type_for(c['boundary'])
         c['valid'] = True
+    # what each part must present, from the Coq side: view_of (expect_headers ...) (ModelPart/SpecPart;
+    # proved equal to the field by C13_form_roundtrip for undecorated parts)
+    big = [0, 100000, 10]
+    exp = model.run_many([[2, 100000, big, w_parts(c['parts']), []] for c in keep])
+    flat = [hs for e in exp for hs, _ in e[0]]
+    views = iter(model.run_many([[7, hs] for hs in flat]))
+    for c, e in zip(keep, exp):
+        c['coq_views'] = [r_view(next(views)) for _ in e[0]]
+    # secure_filename of the encoded filename (NFKD supplied by CPython, see ModelPart.secure_filename)
+    import unicodedata
+    sw, where = [], []
+    for c in keep:
+        c['coq_secure'] = []
+        for i, p in enumerate(c['parts']):
+            fn = p['filename'] or ''
+            c['coq_secure'].append(None)
+            sw.append([8, fn, unicodedata.normalize('NFKD', fn)])
+            where.append((c, i))
+    for (c, i), out in zip(where, model.run_many(sw)):
+        c['coq_secure'][i] = common.wstr(out[0]) if out else ('raises', 'MultipartParseError')
     return keep
 
 
@@ -540,11 +608,45 @@ def run_batch(ctx, mods, model, cases, asyn, tag):
         wires.append([0, cs_eff(c, asyn) if cs_eff(c, asyn) < 3000 else len(c['body']) + 100,
                       w_cfg(c['cfg'], len(c['body'])), c['boundary'], [w_action(a) for a in c['script']], c['body']])
     mruns = [r_run(v) for v in model.run_many(wires)]
+    # the same parser loop running on the modelled buffered readers of C14 (ModelReaders.v): must
+    # agree with the cursor-level model (C13_multipart_chunking_independent) and with the real code
+    rwires = []
+    for c, w in zip(cases, wires):
+        if asyn:
+            rwires.append([6, w[1], w[2], w[3], w[4], [list(x) for x in c['chunks']]])
+        else:
+            rwires.append([5, w[1], w[2], w[3], w[4], w[5], c['sched']])
+    rruns = [r_run(v) for v in model.run_many(rwires)]
+    for c, mr, rr in zip(cases, mruns, rruns):
+        if mr != rr:
+            ctx.violation('reader-model-vs-cursor-model', dict(case_detail(c, which), cursor_model=jsonable(mr),
+                                                                reader_model=jsonable(rr),
+                                                                broken='C13.multipart_chunking_independent'),
+                          found_input=False, key='rm-' + which)
+            break
     for im, mr in zip(impls, mruns):
         for j, (hs, d) in enumerate(im[0]):
             if hs is None:   # the private header dict is gone: headers are judged via the public view only
                 im[0][j] = (mr[0][j][0] if j < len(mr[0]) else {}, d)
                 ctx.cov['headers_via_public_view_only'] = True
+    # corrupted bodies: attributes predicted by ModelPart from the MODEL's header dictionaries
+    vw, vwhere = [], []
+    for c, mr in zip(cases, mruns):
+        if c.get('valid'):
+            continue
+        c['model_views'] = []
+        for j, (hs, _) in enumerate(mr[0]):
+            cd = hs.get(b'content-disposition', b'')
+            try:
+                latin1 = all(ord(ch) < 256 for ch in cd.decode('utf-8'))
+            except UnicodeDecodeError:
+                latin1 = True
+            c['model_views'].append(None)
+            if latin1:      # C11's parse_header model is stated for latin-1 header strings
+                vw.append([7, [[k, v] for k, v in hs.items()]])
+                vwhere.append((c, j))
+    for (c, j), out in zip(vwhere, model.run_many(vw)):
+        c['model_views'][j] = r_view(out)
     owires, oidx = [], []
     for i, (c, im) in enumerate(zip(cases, impls)):
         if c.get('valid') and im[1][0] in ('done', 'failed'):
@@ -648,8 +750,7 @@ def main(ctx):
     ctx.sample({'content_type': bases[0]['content_type'], 'body': repr(bases[0]['body'][:200])})
 
 
-def e2e(ctx, mods, bases):
-    """through real apps: req.get_media() on WSGI and ASGI, errors must become HTTP 400"""
+def e2e_clients():
     import falcon
     import falcon.asgi
     from falcon import testing
@@ -671,27 +772,37 @@ def e2e(ctx, mods, bases):
     app, aapp = falcon.App(), falcon.asgi.App()
     app.add_route('/f', Res())
     aapp.add_route('/f', ARes())
-    for which, cl in (('wsgi', testing.TestClient(app)), ('asgi', testing.TestClient(aapp))):
+    return (('wsgi', testing.TestClient(app)), ('asgi', testing.TestClient(aapp)))
+
+
+def e2e_one(ctx, which, cl, body, content_type, exp):
+    """one request through a real app; exp = expected [[name, filename, content_type, hex]] or None for
+    a damaged body (then only 200/400 are acceptable)"""
+    r = cl.simulate_post('/f', body=body, headers={'Content-Type': content_type})
+    ctx.note_case(('e2e', which, body, content_type), True)
+    ctx.count('e2e-' + which)
+    detail = {'parser': 'e2e-' + which, 'content_type': content_type,
+              'case': jsonable({'body': body, 'content_type': content_type, 'expected': exp}),
+              'status_code': r.status_code}
+    if exp is not None:
+        ok = r.status_code == 200 and r.json == exp
+        if not ok:
+            ctx.violation('e2e-multipart-roundtrip', dict(detail, got=r.text[:500], expected=exp),
+                          key='e2e-%s-%s' % (which, r.status_code))
+        return ok
+    if r.status_code not in (200, 400):
+        ctx.violation('e2e-truncated-body-not-400', dict(detail, got=r.text[:300]), key='e2e-400-' + which)
+    return True
+
+
+def e2e(ctx, mods, bases):
+    """through real apps: req.get_media() on WSGI and ASGI, errors must become HTTP 400"""
+    for which, cl in e2e_clients():
         for b in bases:
-            valid_ok = False
-            for body, valid in ((b['body'], True), (b['body'][: max(0, len(b['body']) - 3)], False)):
-                if not valid and not valid_ok:
-                    continue
-                r = cl.simulate_post('/f', body=body, headers={'Content-Type': b['content_type']})
-                ctx.note_case(('e2e', which, body), True)
-                ctx.count('e2e-' + which)
-                detail = {'parser': 'e2e-' + which, 'content_type': b['content_type'],
-                          'case': jsonable({'body': body, 'content_type': b['content_type']}),
-                          'status_code': r.status_code}
-                if valid:
-                    exp = [[p['name'], p['filename'], expected_view(p)['content_type'], p['content'].hex()]
-                           for p in b['parts']]
-                    valid_ok = r.status_code == 200 and r.json == exp
-                    if not valid_ok:
-                        ctx.violation('e2e-multipart-roundtrip', dict(detail, got=r.text[:500], expected=exp),
-                                      key='e2e-%s-%s' % (which, r.status_code))
-                elif r.status_code not in (200, 400):
-                    ctx.violation('e2e-truncated-body-not-400', dict(detail, got=r.text[:300]), key='e2e-400-' + which)
+            exp = [[p['name'], p['filename'], expected_view(p)['content_type'], p['content'].hex()]
+                   for p in b['parts']]
+            if e2e_one(ctx, which, cl, b['body'], b['content_type'], exp):
+                e2e_one(ctx, which, cl, b['body'][: max(0, len(b['body']) - 3)], b['content_type'], None)
 
 
 def replay(ctx, obj):
@@ -707,7 +818,11 @@ def replay(ctx, obj):
             p['headers'] = [[bytes(n), bytes(v)] for n, v in p['headers']]
     asyn = obj.get('parser') == 'async'
     if obj.get('parser', '').startswith('e2e'):
-        return main(ctx)
+        for which, cl in e2e_clients():
+            if obj['parser'] in ('e2e', 'e2e-' + which):
+                e2e_one(ctx, which, cl, c['body'], c['content_type'], c.get('expected'))
+        ctx.note_case('replay-pad', True)
+        return
     c.setdefault('cs', None)
     if asyn:
         c.setdefault('chunks', [c['body']])
